@@ -4,7 +4,7 @@ C16  Model of the `comrak` binary (src/main.rs).
 * `Cli`            the record clap fills in (src/main.rs:30-159), one field per flag / value
 * `parseArgs`      the fragment of clap's grammar the definition uses (long/short names, `--name=value`,
                    `-e a,b`, repeated `-e`, `--`, duplicates and `conflicts_with_all` rejected with exit 2)
-* `mergeConfig`    the `args.insert(i, ..)` loop of `cli_with_config` (src/main.rs:221-225)
+* `mergeConfig`    the argument list built by `cli_with_config` (process arguments, then config words)
 * `cliToOptions`   hand model of the builder calls (src/main.rs:256-311), every `|| cli.gfm` included
 * `documented`     the mapping written from the help text / README "Usage" only
 * `chosenFormat`, `chosenHighlighter`, `chosenSink`, `checkInplace`, `readInputs`, `execute`, `mainModel`
@@ -362,16 +362,21 @@ def execute (L : Lib) (w : World) (c : Cli) : Result :=
 
 /-! ## Arguments: the config file splice and the clap grammar -/
 
-/-- src/main.rs:221-225. `cfg` = the words of the config file; every process argument that is valid
-    Unicode (`some`) is inserted at *its own index*; the others are skipped. `Vec::insert` panics when
-    the index is past the end (`none`). -/
+/-- The pinned `cli_with_config` (before /repo commit f3c2040): `cfg` = the words of the config file;
+    every process argument that is valid Unicode (`some`) is inserted at *its own index*; the others
+    are skipped. `Vec::insert` panics when the index is past the end (`none`). Kept for the
+    historical counterexamples. -/
 def mergeLoop : Nat → List (Option Bytes) → List Bytes → Option (List Bytes)
   | _, [], args => some args
   | i, some s :: rest, args =>
     if i ≤ args.length then mergeLoop (i + 1) rest (args.insertIdx i s) else none
   | i, none :: rest, args => mergeLoop (i + 1) rest args
 
-def mergeConfig (env : List (Option Bytes)) (cfg : List Bytes) : Option (List Bytes) := mergeLoop 0 env cfg
+def mergeConfigOld (env : List (Option Bytes)) (cfg : List Bytes) : Option (List Bytes) := mergeLoop 0 env cfg
+
+/-- `cli_with_config` as it is: the process arguments as they are (`OsString`s: arbitrary bytes),
+    followed by the words of the config file. Total. -/
+def mergeConfig (env : List Bytes) (cfg : List Bytes) : List Bytes := env ++ cfg
 
 /-- Boolean flags (clap `SetTrue`). -/
 inductive BFlag
@@ -627,9 +632,7 @@ def cliWithConfig (defaultConfigPath : Bytes) (cfgFs : ConfigFs) (argv : List By
       | none => .ok cli
       | some none => .error .usage
       | some (some words) =>
-        match mergeConfig (argv.map some) words with
-        | some merged => parseArgs defaultConfigPath merged
-        | none => .error .panic
+        parseArgs defaultConfigPath (mergeConfig argv words)
 
 /-- The whole program for Unicode arguments; `none` = outside the modelled clap fragment. -/
 def mainModel (L : Lib) (w : World) (defaultConfigPath : Bytes) (cfgFs : ConfigFs) (argv : List Bytes) :
